@@ -96,4 +96,398 @@ theorem applySwaps_invol (l : List (Nat × Nat)) (p : List Nat)
     rw [swap_applySwaps_comm l _ x hd.1, swap_swap p x.1 x.2 hx.1 hx.2]
     exact ih p hd.2 (fun y hy => hr y (by simp [hy]))
 
+/-! ## selection -/
+
+theorem argmaxLast_mem (gains : List Int) (cs : List Nat) (i : Nat) (gi : Int)
+    (h : argmaxLast gains cs = some (i, gi)) : i ∈ cs := by
+  cases cs with
+  | nil => simp [argmaxLast] at h
+  | cons c cs =>
+    simp only [argmaxLast, Option.some.injEq] at h
+    have key : ∀ (l : List Nat) (b : Nat × Int),
+        (l.foldl (fun b k => if b.2 ≤ gains.getD k 0 then (k, gains.getD k 0) else b) b).1 = b.1 ∨
+        (l.foldl (fun b k => if b.2 ≤ gains.getD k 0 then (k, gains.getD k 0) else b) b).1 ∈ l := by
+      intro l
+      induction l with
+      | nil => intro b; simp
+      | cons k l ih =>
+        intro b
+        simp only [List.foldl_cons]
+        rcases ih (if b.2 ≤ gains.getD k 0 then (k, gains.getD k 0) else b) with h' | h'
+        · rw [h']
+          split
+          · exact Or.inr List.mem_cons_self
+          · left; rfl
+        · exact Or.inr (List.mem_cons_of_mem _ h')
+    have := key cs (c, gains.getD c 0)
+    rw [h] at this
+    simpa using this
+
+theorem argminFirst_spec (cs : List Int) (b : Nat) (c : Int)
+    (h : argminFirst cs = some (b, c)) : cs[b]? = some c := by
+  cases cs with
+  | nil => simp [argminFirst] at h
+  | cons c0 cs =>
+    simp only [argminFirst, Option.some.injEq] at h
+    have key : ∀ (l : List Int) (k : Nat) (acc : Nat × Int), (c0 :: cs)[acc.1]? = some acc.2 →
+        (∀ t, (l[t]? : Option Int) = (c0 :: cs)[k + t]?) →
+        (c0 :: cs)[((l.zipIdx k).foldl (fun b x => if x.1 < b.2 then (x.2, x.1) else b) acc).1]? =
+          some ((l.zipIdx k).foldl (fun b x => if x.1 < b.2 then (x.2, x.1) else b) acc).2 := by
+      intro l
+      induction l with
+      | nil => intro k acc hacc _; simpa using hacc
+      | cons x l ih =>
+        intro k acc hacc hl
+        simp only [List.zipIdx_cons, List.foldl_cons]
+        apply ih
+        · split
+          · have := hl 0; simp at this; simpa using this.symm
+          · exact hacc
+        · intro t
+          have := hl (t + 1)
+          simp at this
+          rw [this]; congr 1; omega
+    have := key cs 1 (0, c0) (by simp) (by intro t; simp [Nat.add_comm])
+    rw [h] at this
+    exact this
+
+theorem mem_cands {p : List Nat} {locks : List Bool} {wlen a i : Nat}
+    (h : i ∈ cands p locks wlen a) :
+    i < p.length ∧ p.getD i 0 = a ∧ locks.getD i true = false := by
+  simp only [cands, List.mem_filter, List.mem_range, Bool.and_eq_true, decide_eq_true_eq,
+    beq_iff_eq, Bool.not_eq_true'] at h
+  exact ⟨h.1, h.2.1.2, h.2.2⟩
+
+/-! ## the pass loop keeps its books correctly -/
+
+theorem lock_set_keep (l : List Bool) (i x : Nat) (h : l.getD x true = true) :
+    (l.set i true).getD x true = true := by
+  simp only [List.getD_eq_getElem?_getD, List.getElem?_set] at *
+  grind
+
+theorem lock_set_self (l : List Bool) (i : Nat) : (l.set i true).getD i true = true := by
+  simp only [List.getD_eq_getElem?_getD, List.getElem?_set]
+  grind
+
+/-- Book-keeping invariant of the pass loop, relative to the partition `p0` the
+pass started from. -/
+structure Inv (g : Graph) (p0 : List Nat) (s : St) : Prop where
+  hp : s.p = applySwaps s.saves p0
+  hlen : s.cuts.length = s.saves.length
+  hcut : ∀ t, t < s.saves.length →
+    s.cuts[t]? = some (edgeCut g (applySwaps (s.saves.take (t + 1)) p0))
+  hrange : ∀ x ∈ s.saves, x.1 < p0.length ∧ x.2 < p0.length
+  hlock : ∀ x ∈ s.saves, s.locks.getD x.1 true = true ∧ s.locks.getD x.2 true = true
+  hdisj : s.saves.Pairwise Disj
+
+theorem Inv.init (g : Graph) (p0 : List Nat) (gains : List Int) (locks : List Bool) :
+    Inv g p0 { p := p0, gains := gains, locks := locks, saves := [], cuts := [] } :=
+  ⟨rfl, rfl, by simp, by simp, by simp, List.Pairwise.nil⟩
+
+theorem Inv.step {g : Graph} {p0 : List Nat} {s : St} (h : Inv g p0 s) {wlen a b i j : Nat}
+    (gains : List Int)
+    (hi : i ∈ cands s.p s.locks wlen a) (hj : j ∈ cands s.p s.locks wlen b) :
+    Inv g p0 { p := swap s.p i j, gains := gains, locks := (s.locks.set i true).set j true,
+               saves := s.saves ++ [(i, j)], cuts := s.cuts ++ [edgeCut g (swap s.p i j)] } := by
+  obtain ⟨hil, -, hiu⟩ := mem_cands hi
+  obtain ⟨hjl, -, hju⟩ := mem_cands hj
+  have hpl : s.p.length = p0.length := by rw [h.hp]; simp
+  have hnew : swap s.p i j = applySwaps (s.saves ++ [(i, j)]) p0 := by
+    rw [applySwaps_append, ← h.hp]; rfl
+  refine ⟨hnew, by simp [h.hlen], ?_, ?_, ?_, ?_⟩
+  · intro t ht
+    simp only [List.length_append, List.length_singleton] at ht
+    by_cases hlt : t < s.saves.length
+    · rw [List.getElem?_append_left (by rw [h.hlen]; exact hlt),
+        List.take_append_of_le_length (by omega)]
+      exact h.hcut t hlt
+    · have ht' : t = s.saves.length := by omega
+      subst ht'
+      rw [← h.hlen, List.getElem?_append_right (Nat.le_refl _)]
+      simp only [Nat.sub_self, List.getElem?_cons_zero]
+      rw [h.hlen, List.take_of_length_le (by simp), hnew]
+  · intro x hx
+    rcases List.mem_append.1 hx with hx | hx
+    · exact h.hrange x hx
+    · simp only [List.mem_singleton] at hx; subst hx; exact ⟨hpl ▸ hil, hpl ▸ hjl⟩
+  · intro x hx
+    rcases List.mem_append.1 hx with hx | hx
+    · exact ⟨lock_set_keep _ _ _ (lock_set_keep _ _ _ (h.hlock x hx).1),
+        lock_set_keep _ _ _ (lock_set_keep _ _ _ (h.hlock x hx).2)⟩
+    · simp only [List.mem_singleton] at hx; subst hx
+      exact ⟨lock_set_keep _ _ _ (lock_set_self _ _), lock_set_self _ _⟩
+  · rw [List.pairwise_append]
+    refine ⟨h.hdisj, by simp, ?_⟩
+    intro x hx y hy
+    simp only [List.mem_singleton] at hy; subst hy
+    obtain ⟨h1, h2⟩ := h.hlock x hx
+    refine ⟨?_, ?_, ?_, ?_⟩ <;> intro he <;> simp_all
+
+theorem flips_inv (cfg : Cfg) (g : Graph) (wlen a b mb : Nat) (p0 : List Nat) :
+    ∀ (k : Nat) (s s' : St), flips cfg g wlen a b mb k s = .ok s' → Inv g p0 s → Inv g p0 s' := by
+  intro k
+  induction k with
+  | zero => intro s s' h hinv; simp only [flips, Except.ok.injEq] at h; exact h ▸ hinv
+  | succ k ih =>
+    intro s s' h hinv
+    simp only [flips] at h
+    split at h
+    · simp at h
+    · split at h
+      · split at h
+        · simp at h
+        · simp only [Except.ok.injEq] at h; exact h ▸ hinv
+      · next i gi hi =>
+        split at h
+        · split at h
+          · simp at h
+          · simp only [Except.ok.injEq] at h; exact h ▸ hinv
+        · next j gj hj =>
+          split at h
+          · simp only [Except.ok.injEq] at h; exact h ▸ hinv
+          · exact ih _ _ h (hinv.step _ (argmaxLast_mem _ _ _ _ hi) (argmaxLast_mem _ _ _ _ hj))
+
+/-! ## one pass, all passes -/
+
+/-- What one iteration of the outer loop guarantees (repaired code). -/
+theorem pass_spec (g : Graph) (wlen a b mb : Nat) (mf : Option Nat) (p : List Nat) (cut : Int)
+    (r : PassRes) (h : pass {} g wlen a b mb mf p cut = .ok r) (hc : cut = edgeCut g p) :
+    r.p.Perm p ∧ r.cut = edgeCut g r.p ∧ r.cut ≤ cut ∧ (r.again = true → r.cut < cut) := by
+  simp only [pass] at h
+  split at h
+  · simp at h
+  · next s hs =>
+    have hinv := flips_inv {} g wlen a b mb p _ _ _ hs (Inv.init g p _ _)
+    split at h
+    · next hnone =>
+      have hcuts : s.cuts = [] := by
+        cases hcs : s.cuts with
+        | nil => rfl
+        | cons c cs => rw [hcs] at hnone; simp [argminFirst] at hnone
+      have hsv : s.saves = [] := by
+        have := hinv.hlen; rw [hcuts] at this
+        exact List.eq_nil_of_length_eq_zero this.symm
+      have hp : s.p = p := by rw [hinv.hp, hsv]; rfl
+      simp only [Bool.false_eq_true, if_false, Except.ok.injEq] at h
+      subst h
+      simp [hp, hc]
+    · next best bestCut hbest =>
+      have hspec := argminFirst_spec _ _ _ hbest
+      have hlt : best < s.saves.length := by
+        rw [← hinv.hlen]
+        by_cases hl : best < s.cuts.length
+        · exact hl
+        · rw [List.getElem?_eq_none (by omega)] at hspec; simp at hspec
+      have hsplit : s.saves = s.saves.take (best + 1) ++ s.saves.drop (best + 1) :=
+        (List.take_append_drop _ _).symm
+      have hdrop_d : (s.saves.drop (best + 1)).Pairwise Disj :=
+        hinv.hdisj.sublist (List.drop_sublist _ _)
+      have htake_d : (s.saves.take (best + 1)).Pairwise Disj :=
+        hinv.hdisj.sublist (List.take_sublist _ _)
+      have hdrop_r : ∀ x ∈ s.saves.drop (best + 1), x.1 < p.length ∧ x.2 < p.length :=
+        fun x hx => hinv.hrange x (List.mem_of_mem_drop hx)
+      have htake_r : ∀ x ∈ s.saves.take (best + 1), x.1 < p.length ∧ x.2 < p.length :=
+        fun x hx => hinv.hrange x (List.mem_of_mem_take hx)
+      -- the rewind lands on the partition whose cut was recorded as `bestCut`
+      have hp1 : applySwaps (s.saves.drop (best + 1)) s.p = applySwaps (s.saves.take (best + 1)) p := by
+        have : s.p = applySwaps (s.saves.drop (best + 1)) (applySwaps (s.saves.take (best + 1)) p) := by
+          rw [← applySwaps_append, ← hsplit]; exact hinv.hp
+        rw [this]
+        exact applySwaps_invol _ _ hdrop_d (by simpa using hdrop_r)
+      have hcut1 : bestCut = edgeCut g (applySwaps (s.saves.take (best + 1)) p) := by
+        have := hinv.hcut best hlt
+        rw [hspec] at this
+        exact Option.some.inj this
+      rw [hp1] at h
+      split at h
+      · next hle =>
+        simp only [Bool.false_eq_true, if_false, Except.ok.injEq] at h
+        subst h
+        rw [applySwaps_invol _ _ htake_d htake_r]
+        simp [hc]
+      · next hlt' =>
+        simp only [Except.ok.injEq] at h
+        subst h
+        exact ⟨applySwaps_perm _ _ htake_r, hcut1, by simp only; omega, fun _ => by simp only; omega⟩
+
+/-- The tracked cut is the cut of the tracked partition at every pass, the
+partition stays a permutation of the input and its cut never goes up. -/
+theorem passes_spec (g : Graph) (wlen a b mb : Nat) (mp mf : Option Nat) :
+    ∀ (fuel iter : Nat) (p : List Nat) (cut : Int) (out : List Nat),
+      passes {} g wlen a b mb mp mf fuel iter p cut = .ok out → cut = edgeCut g p →
+      out.Perm p ∧ edgeCut g out ≤ edgeCut g p := by
+  intro fuel
+  induction fuel with
+  | zero => intro iter p cut out h; simp [passes] at h
+  | succ fuel ih =>
+    intro iter p cut out h hc
+    by_cases hstop : passLimit mp iter = true
+    · simp only [passes, hstop, if_true, Outcome.ok.injEq] at h
+      subst h; exact ⟨List.Perm.refl _, Int.le_refl _⟩
+    · have hstop' : passLimit mp iter = false := by simpa using hstop
+      simp only [passes, hstop', Bool.false_eq_true, if_false] at h
+      split at h
+      · simp at h
+      · next r hr =>
+        obtain ⟨hperm, hrc, hle, -⟩ := pass_spec g wlen a b mb mf p cut r hr hc
+        split at h
+        · obtain ⟨h1, h2⟩ := ih _ _ _ _ h hrc
+          exact ⟨h1.trans hperm, by omega⟩
+        · simp only [Outcome.ok.injEq] at h; subst h
+          exact ⟨hperm, by omega⟩
+
+/-! ## totality -/
+
+/-- Well-formed CSR adjacency on `n` vertices: one row per vertex, every stored
+column index is a vertex.  (No symmetry, sortedness or sign condition.) -/
+def WF (g : Graph) (n : Nat) : Prop := g.length = n ∧ ∀ row ∈ g, ∀ e ∈ row, e.1 < n
+
+theorem rowsCheck_of_wf {g : Graph} {n : Nat} (h : WF g n) : rowsCheck g n = none := by
+  simp only [rowsCheck, List.findSome?_eq_none_iff, List.mem_range]
+  intro i hi
+  have hil : i < g.length := h.1 ▸ hi
+  rw [List.getElem?_eq_getElem hil]
+  simp only
+  rw [if_neg]
+  simp only [List.any_eq_true, decide_eq_true_eq, not_exists, not_and, Nat.not_le]
+  intro e he
+  exact h.2 _ (List.getElem_mem hil) e he
+
+theorem flips_ok (g : Graph) (wlen a b mb : Nat) :
+    ∀ (k : Nat) (s : St), rowsCheck g s.p.length = none →
+      ∃ s', flips {} g wlen a b mb k s = .ok s' := by
+  intro k
+  induction k with
+  | zero => intro s _; exact ⟨s, rfl⟩
+  | succ k ih =>
+    intro s hs
+    simp only [flips, hs]
+    split
+    · exact ⟨s, rfl⟩
+    · split
+      · exact ⟨s, rfl⟩
+      · split
+        · exact ⟨s, rfl⟩
+        · exact ih _ (by simpa using hs)
+
+theorem pass_ok (g : Graph) (wlen a b mb : Nat) (mf : Option Nat) (p : List Nat) (cut : Int)
+    (hwf : WF g p.length) : ∃ r, pass {} g wlen a b mb mf p cut = .ok r := by
+  obtain ⟨s, hs⟩ := flips_ok g wlen a b mb (flipBound p.length mf)
+    { p := p, gains := List.replicate p.length 0, locks := List.replicate p.length false,
+      saves := [], cuts := [] } (rowsCheck_of_wf hwf)
+  simp only [pass, hs]
+  split
+  · exact ⟨_, rfl⟩
+  · split
+    · exact ⟨_, rfl⟩
+    · exact ⟨_, rfl⟩
+
+/-! ### the cut is bounded below -/
+
+theorem sum_sublist_ge (l l' : List (Nat × Int)) (h : l'.Sublist l) :
+    -(((l.map (fun e => e.2.natAbs)).sum : Nat) : Int) ≤ (l'.map (·.2)).sum := by
+  induction h with
+  | slnil => simp
+  | cons x _ ih => simp only [List.map_cons, List.sum_cons]; omega
+  | cons_cons x _ ih => simp only [List.map_cons, List.sum_cons]; omega
+
+theorem rowCut_ge (p : List Nat) (v : Nat) (row : List (Nat × Int)) :
+    -(((row.map (fun e => e.2.natAbs)).sum : Nat) : Int) ≤ rowCut p v row :=
+  sum_sublist_ge _ _ (List.filter_sublist.trans (List.takeWhile_sublist _))
+
+theorem edgeCut_ge (g : Graph) (p : List Nat) : -(absSum g : Int) ≤ edgeCut g p := by
+  unfold edgeCut absSum
+  suffices h : ∀ k, -(((g.map (fun row => (row.map (fun e => e.2.natAbs)).sum)).sum : Nat) : Int) ≤
+      ((g.zipIdx k).map (fun x => rowCut p x.2 x.1)).sum from h 0
+  induction g with
+  | nil => intro k; simp
+  | cons row g ih =>
+    intro k
+    simp only [List.map_cons, List.sum_cons, List.zipIdx_cons]
+    have h1 := rowCut_ge p k row
+    have h2 := ih (k + 1)
+    omega
+
+theorem passes_ok (g : Graph) (wlen a b mb : Nat) (mp mf : Option Nat) :
+    ∀ (fuel iter : Nat) (p : List Nat) (cut : Int), WF g p.length → cut = edgeCut g p →
+      (cut + absSum g).toNat < fuel →
+      ∃ out, passes {} g wlen a b mb mp mf fuel iter p cut = .ok out := by
+  intro fuel
+  induction fuel with
+  | zero => intro iter p cut _ _ h; omega
+  | succ fuel ih =>
+    intro iter p cut hwf hc hf
+    by_cases hstop : passLimit mp iter = true
+    · exact ⟨p, by simp only [passes, hstop, if_true]⟩
+    · have hstop' : passLimit mp iter = false := by simpa using hstop
+      obtain ⟨r, hr⟩ := pass_ok g wlen a b mb mf p cut hwf
+      obtain ⟨hperm, hrc, -, hlt⟩ := pass_spec g wlen a b mb mf p cut r hr hc
+      simp only [passes, hstop', Bool.false_eq_true, if_false, hr]
+      split
+      · next hag =>
+        have h1 := hlt hag
+        have h2 := edgeCut_ge g r.p
+        have h3 := edgeCut_ge g p
+        refine ih _ _ _ (by rw [hperm.length_eq]; exact hwf) hrc ?_
+        omega
+      · exact ⟨_, rfl⟩
+
+/-! ### `unique_ids` of a two-way partition -/
+
+theorem uniqueAux_mem (seen l : List Nat) (x : Nat) :
+    x ∈ uniqueAux seen l ↔ x ∈ l ∧ x ∉ seen := by
+  induction l generalizing seen with
+  | nil => simp [uniqueAux]
+  | cons y l ih =>
+    simp only [uniqueAux]
+    split
+    · next hc =>
+      rw [ih]
+      have : y ∈ seen := by simpa using hc
+      grind
+    · next hc =>
+      have : y ∉ seen := by simpa using hc
+      simp only [List.mem_cons, ih]
+      grind
+
+theorem uniqueAux_nodup (seen l : List Nat) : (uniqueAux seen l).Nodup := by
+  induction l generalizing seen with
+  | nil => simp [uniqueAux]
+  | cons y l ih =>
+    simp only [uniqueAux]
+    split
+    · exact ih _
+    · rw [List.nodup_cons]
+      refine ⟨?_, ih _⟩
+      rw [uniqueAux_mem]
+      simp
+
+/-- Two-way partition with both parts non-empty: exactly two distinct labels occur. -/
+def TwoWay (p : List Nat) : Prop :=
+  ∃ a b, a ≠ b ∧ a ∈ p ∧ b ∈ p ∧ ∀ x ∈ p, x = a ∨ x = b
+
+theorem uniqueIds_two {p : List Nat} (h : TwoWay p) :
+    ∃ a b, uniqueIds p = [a, b] ∧ a ≠ b ∧ a ∈ p ∧ b ∈ p := by
+  obtain ⟨a, b, hab, ha, hb, hall⟩ := h
+  have hmem : ∀ x, x ∈ uniqueIds p ↔ x ∈ p := by
+    intro x; simp [uniqueIds, uniqueAux_mem]
+  have hnd : (uniqueIds p).Nodup := uniqueAux_nodup _ _
+  generalize uniqueIds p = u at hmem hnd
+  have ha' := (hmem a).2 ha
+  have hb' := (hmem b).2 hb
+  have hall' : ∀ x ∈ u, x = a ∨ x = b := fun x hx => hall x ((hmem x).1 hx)
+  match u, hnd, ha', hb', hall', hmem with
+  | [], _, ha', _, _, _ => simp at ha'
+  | [x], _, ha', hb', _, _ => simp at ha' hb'; omega
+  | [x, y], hnd, _, _, _, hmem =>
+    refine ⟨x, y, rfl, ?_, (hmem x).1 (by simp), (hmem y).1 (by simp)⟩
+    simp at hnd; exact hnd
+  | x :: y :: z :: r, hnd, _, _, hall', _ =>
+    exfalso
+    have hx := hall' x (by simp)
+    have hy := hall' y (by simp)
+    have hz := hall' z (by simp)
+    simp only [List.nodup_cons, List.mem_cons, not_or] at hnd
+    grind
+
 end Coupe.Kl
